@@ -17,6 +17,7 @@ def main(argv=None):
     ap.add_argument("--budget", type=float)
     ap.add_argument("--digests", type=int, help="self-test: dump run digests of the first N seeds to --out")
     ap.add_argument("--out")
+    ap.add_argument("--exec-indices", help="internal: execute these run indices in this interpreter, dump results to --out")
     ap.add_argument("--dump-log", type=int, help="self-test: print the full event log of run index I")
     a = ap.parse_args(argv)
     from qsim import runner
@@ -25,6 +26,8 @@ def main(argv=None):
     if a.replay:
         return runner.replay(prop, a.replay)
     seed = int(os.environ.get("VERIF_SEED", "0") or 0)
+    if a.exec_indices:
+        return runner.exec_indices(prop, a.tier, seed, [int(x) for x in a.exec_indices.split(",")], a.out)
     if a.digests:
         return runner.dump_digests(prop, a.tier, seed, a.digests, a.out)
     if a.dump_log is not None:
